@@ -343,6 +343,12 @@ pub fn check_edited_raw(ctx: &mut Ctx, ty: u16, old_len: usize, new: &[u8]) {
 
 /// builder paths: build, write_into exact/larger, into_owned, clone, short destinations
 pub fn check_builder_paths(ctx: &mut Ctx, p: &Program, all_short: bool) {
+    let opened = ctx.wd.enter_case_src("builder-program", p);
+    check_builder_paths_inner(ctx, p, all_short);
+    ctx.wd.leave_case(opened);
+}
+
+fn check_builder_paths_inner(ctx: &mut Ctx, p: &Program, all_short: bool) {
     ctx.eval();
     let w = || p.to_json();
     let r = guard(|| {
